@@ -6,7 +6,7 @@ from lib.sysrun import Case
 LEVEL = "proof"
 THEOREMS = ["Kalign.C14_codes_case_invariant", "Kalign.C14_codes_TU", "Kalign.C14_codes_defined", "Kalign.C14_detect_sets_case_closed",
             "Kalign.C14_detect_sets_TU", "Kalign.C14_detect_respell_invariant", "Kalign.C14_convert_respell_invariant"]
-CHECKER = "lake build KalignModel.Props.C14 && lake env lean KalignModel/Audit/C14.lean"
+CHECKER = "lake build KalignModel.Props.Pipeline && lake env lean KalignModel/Audit/C14.lean"
 
 
 def mask(rows):
@@ -30,7 +30,9 @@ def run(ctx):
     ctx.cov["_rule"] = ("unit: convert_msa_to_internal on random letter strings for the three alphabets; end to end: gap pattern of respelled inputs (random case "
                         "patterns, random T<->U substitutions for nucleotides) vs original, all types, both APIs; non-trivial = distinct pairs whose alignment has a gap "
                         "and whose spelling differs in >= 1 letter")
-    ok = C.lean_obligations(ctx, "C14", THEOREMS)
+    ok = C.lean_obligations(ctx, "C14", THEOREMS + C.pipeline_theorems(["kalignRunWith_codes_only", "kalignRun_codes_only", "kalignRunWith_respell", "kalignRunWith_case",
+                                                                         "kalignRunExact_case", "kalignRun_case", "kalignRunWith_TU", "kalignRunExact_TU", "kalignRun_TU"]),
+                             module="Pipeline")
     kvh = C.build_harness("asan")
     rng = ctx.rng
     lines = []
@@ -38,6 +40,8 @@ def run(ctx):
         lines.append("convert %d %s" % (rng.choice([5, 13, 23]), gen.rand_seq(rng, gen.LETTERS if hasattr(gen, "LETTERS") else "ABCDEFGHIJKLMNOPQRSTUVWXYZabcdefghijklmnopqrstuvwxyz", rng.randint(1, 60))))
     diffs = C.correspond(kvh, lines)
     ctx.evaluations += len(lines)
+    # the whole composed pipeline (kalignRun*_codes_only / _case_invariant / _TU_invariant are about this function)
+    diffs += C.pipeline_correspondence(ctx, kvh, [3 * ctx.seed + 2] if ctx.quick else [3 * ctx.seed + 2 + 30 * k for k in range(6)])
     pairs = []
     for i in range(40 if ctx.quick else 400):
         kind = rng.choice(["dna", "rna", "protein"])
